@@ -237,11 +237,13 @@ PROPS["C14"] = _decode_prop(
 def _diff_prop(title, monitor, level_text, level_note, rule, floor, quick, thorough):
     return dict(
         title=title, level="exploration",
-        technique="differential runtime monitor: byte-exact comparison of complete result records between calling patterns / decoder histories / instances, under ASan/UBSan",
+        technique="differential runtime monitor: byte-exact comparison of complete result records between calling patterns / decoder histories / instances, under ASan/UBSan (thorough tier: plus a valgrind memcheck slice for uninitialised reads)",
         level_text=level_text, level_note=level_note, rule=rule,
         stages=[
             dict(harness="h_diff", flavor="asan", quick=quick[0], thorough=thorough[0], args=["--x-monitor", monitor], name="h_diff_asan"),
             dict(harness="h_diff", flavor="fast", quick=quick[1], thorough=thorough[1], args=["--x-monitor", monitor], name="h_diff_fast"),
+            # a value that is read before it is written is a source of run-to-run differences ASan cannot see: valgrind memcheck slice (thorough only)
+            dict(harness="h_diff", flavor="plain", valgrind=True, quick=0, thorough=32, tiers=["thorough"], args=["--x-monitor", monitor], name="h_diff_memcheck"),
         ],
         floor=floor,
         assumptions=[A_SAN, A_GEN],
@@ -326,7 +328,8 @@ PROPS["C10"] = dict(
                "the committed corpus under /verif/corpus is replayed as additional seeds",
     rule="one case = one generated input for one target (target = case index mod 7); distinct = hash of (target, bytes).",
     stages=[dict(harness="h_fuzz", flavor="asan", quick=21000, thorough=280000, hang_violation=True),
-            dict(harness="h_fuzz", flavor="fast", quick=35000, thorough=700000, hang_violation=True, name="h_fuzz_fast")],
+            dict(harness="h_fuzz", flavor="fast", quick=35000, thorough=700000, hang_violation=True, name="h_fuzz_fast"),
+            dict(harness="h_fuzz", flavor="plain", valgrind=True, quick=0, thorough=3500, tiers=["thorough"], name="h_fuzz_memcheck")],
     floor=dict(min_evaluations=20000, min_distinct=10000, counters={"objects_returned_jsgf": 100, "objects_returned_fsg": 100, "objects_returned_dict": 100,
                                                                    "objects_returned_config": 100, "grammars_loaded_into_decoder": 50, "short_decodes": 50,
                                                                    "words_accepted": 20, "texts_accepted": 20, "fsgs_built_from_jsgf": 100}),
@@ -431,7 +434,9 @@ PROPS["C09"] = dict(
                "to the current result); '<= 0 frames' is accepted for audio outside an utterance because the header says '< 0' while the long-standing "
                "behaviour is 0 plus an error message; malformed text inputs belong to C10 and damaged files to C17",
     rule="one case = one history on a fresh decoder; distinct = (case, number of calls).",
-    stages=[dict(harness="h_api", flavor="asan", quick=600, thorough=30000, leaks=True)],
+    stages=[dict(harness="h_api", flavor="asan", quick=600, thorough=30000, leaks=True),
+            # uninitialised reads are invisible to ASan: a slice of the same histories under valgrind memcheck, thorough tier only
+            dict(harness="h_api", flavor="plain", valgrind=True, quick=0, thorough=48, tiers=["thorough"], name="h_api_memcheck")],
     floor=dict(min_evaluations=500, min_distinct=400, counters={"api_calls": 10000, "hostile_histories": 100, "conforming_histories": 250, "utterances_ended": 300,
                                                               "out_of_order_audio_after_end": 15, "out_of_order_audio_before_start": 15, "out_of_order_start_twice": 10,
                                                               "out_of_order_end_without_start": 15, "degenerate_argument_calls": 30, "iterators_abandoned_half_way": 200,
